@@ -130,6 +130,7 @@ func (b Body) bytes() ([]byte, error) {
 // expect is what the property demands of the reply to one body.
 type expect struct {
 	class         string // evidence label
+	ws            int    // bytes of leading JSON whitespace
 	nontrivial    bool
 	single        bool // a single response object is acceptable
 	singleMustErr bool // ... and it must be an error object
@@ -294,13 +295,13 @@ func leadingSpace(b []byte) int {
 	return len(b)
 }
 
-func classify(body []byte) expect {
+func classify(body []byte) (e expect) {
 	ws := leadingSpace(body)
-	e := expect{arrayLen: -1}
+	e = expect{arrayLen: -1}
 	defer func() {
+		e.ws = ws
 		if ws > 100 {
 			e.nontrivial = true
-			e.class += "+ws>100"
 		}
 	}()
 	v, err := jsonrpc.Parse(body)
@@ -660,7 +661,10 @@ func genBody(rt *rapid.T, label string, thorough bool) Body {
 	case k < 19: // many members
 		elem := rapid.SampledFrom([]string{`null`, `1`, `{}`, `[]`, `{"id":1,"method":"eth_blockNumber"}`, `{"id":1}`, `""`}).Draw(rt, label+".elem")
 		n := rapid.SampledFrom([]int{64, 65, 200, 256}).Draw(rt, label+".n")
-		if !strings.Contains(elem, "method") && rapid.Bool().Draw(rt, label+".huge") {
+		// thousands of members only for kinds that can never be forwarded (no id): a member with an id
+		// is a backend call, and tens of thousands of concurrent backend calls measure the machine's
+		// descriptor limits, not the property
+		if !strings.Contains(elem, `"id"`) && rapid.Bool().Draw(rt, label+".huge") {
 			n = rapid.SampledFrom([]int{1000, 5000, 20000}).Draw(rt, label+".nhuge")
 		}
 		tmpl := rapid.SampledFrom([]string{`[@REP@]`, `[{"id":0,"method":"eth_blockNumber"},@REP@]`, `[@REP@,{"id":0,"method":"eth_blockNumber"}]`}).Draw(rt, label+".reptmpl")
@@ -712,7 +716,7 @@ func TestCheck(t *testing.T) {
 	kH := evid.NewKind(rec, "history", judgeHistory)
 	rec.Corpus(t)
 	// histories average ~5.5 bodies
-	rec.Rapid(t, "history", rec.N(450, 3600), func(rt *rapid.T) {
+	rec.Rapid(t, "history", rec.N(500, 3600), func(rt *rapid.T) {
 		var c HistoryCase
 		c.Bodies = rapid.SliceOfN(rapid.Custom(func(rt *rapid.T) Body { return genBody(rt, "b", rec.Thorough()) }), 1, 10).Draw(rt, "bodies")
 		classes := map[string]bool{}
@@ -724,6 +728,21 @@ func TestCheck(t *testing.T) {
 			}
 			e := classify(raw)
 			classes["body:"+e.class] = true
+			switch {
+			case e.ws > 4096:
+				classes["ws:>4096"] = true
+			case e.ws > 100:
+				classes["ws:101..4096"] = true
+			case e.ws == 100:
+				classes["ws:100"] = true
+			case e.ws == 99:
+				classes["ws:99"] = true
+			case e.ws > 0:
+				classes["ws:1..98"] = true
+			}
+			if e.ws >= 100 && len(raw) > e.ws && (raw[e.ws] == '[') {
+				classes["ws>=100-before-["] = true
+			}
 			lbl := b.Label
 			if i := strings.LastIndexByte(lbl, '-'); i > 0 && strings.ContainsAny(lbl[i+1:], "0123456789") {
 				lbl = lbl[:i]
